@@ -835,7 +835,8 @@ def disc_const_tag(doc: dict) -> bool:
 
 
 def allof_required_const(doc: Any) -> bool:
-    """an allOf whose property-less member `{"required": [...]}` names a `const` member declared inline"""
+    """an allOf-level `required` — a property-less member `{"required": [...]}`, or `required` next to `allOf` —
+    names a `const` member declared inline"""
     if isinstance(doc, list):
         return any(allof_required_const(x) for x in doc)
     if not isinstance(doc, dict):
@@ -843,6 +844,7 @@ def allof_required_const(doc: Any) -> bool:
     parts = doc.get("allOf")
     if isinstance(parts, list):
         bare = [n for p in parts if isinstance(p, dict) and set(p) == {"required"} for n in p["required"]]
+        bare += list(doc.get("required") or [])  # `required` next to `allOf` marks the finished fields as well
         for p in parts:
             if isinstance(p, dict) and isinstance(p.get("properties"), dict):
                 if any(isinstance(ps, dict) and "const" in ps and n in bare for n, ps in p["properties"].items()):
